@@ -59,6 +59,7 @@ class GenCfg:
     min_messages: int = 1
     hex_enum: float = 0.2
     comments: float = 0.3
+    std_signed_only: bool = False  # signed ints only of width 8/16/32/64 (big-endian emulation limit, see DESIGN C06)
 
 
 def pick_width(rng: random.Random) -> int:
@@ -67,7 +68,7 @@ def pick_width(rng: random.Random) -> int:
     return rng.randint(1, 64)
 
 
-def pick_base(rng: random.Random) -> Base:
+def pick_base(rng: random.Random, std_signed_only: bool = False) -> Base:
     r = rng.random()
     if r < 0.12:
         return Base("bool")
@@ -75,6 +76,8 @@ def pick_base(rng: random.Random) -> Base:
         return Base("byte")
     if r < 0.62:
         return Base("uint", pick_width(rng))
+    if std_signed_only:
+        return Base("int", rng.choice([8, 16, 32, 64]))
     return Base("int", pick_width(rng))
 
 
@@ -115,7 +118,7 @@ class SchemaGen:
         if named and rng.random() < 0.45:
             return Ref(rng.choice(named))
         for _ in range(20):
-            b = pick_base(rng)
+            b = pick_base(rng, self.cfg.std_signed_only)
             if b.width <= budget:
                 return b
         return Base("bool")
@@ -246,10 +249,10 @@ class SchemaGen:
                     consts.append(c)
             elif kind == "alias":
                 if rng.random() < 0.5:
-                    t: Any = pick_base(rng)
+                    t: Any = pick_base(rng, cfg.std_signed_only)
                 else:
                     # arrays of base/enum/alias/message; alias-of-array chains give 2-D/3-D arrays
-                    t = self.gen_array(usable, 400, consts) or pick_base(rng)
+                    t = self.gen_array(usable, 400, consts) or pick_base(rng, cfg.std_signed_only)
                 a = f.add(Alias(self.pool.pascal(), t))
                 avail.append(a)
             elif kind == "enum":
